@@ -466,10 +466,10 @@ func replayDiff(v report.Violation) string {
 
 // ---- (c) slice garbage collection ----
 
-func gcSystem(edits int) *world.System {
-	images := map[string]map[string]string{"v1": pkgFiles([]string{"a", "b"}, "1"), "v2": pkgFiles([]string{"a", "c"}, "1")}
+func gcSystem(edits int, chain bool) *world.System {
+	images := map[string]map[string]string{"v1": pkgFiles([]string{"a", "b"}, "1"), "v2": pkgFiles([]string{"a", "c"}, "1"), "v3": pkgFiles([]string{"a", "d"}, "1")}
 	return &world.System{
-		Name: fmt.Sprintf("package updates edits=%d", edits),
+		Name: fmt.Sprintf("package updates edits=%d chain=%v", edits, chain),
 		Init: func() *world.World {
 			w := newPkgWorld(images, "v1")
 			w.Budget["edit"] = edits
@@ -482,15 +482,18 @@ func gcSystem(edits int) *world.System {
 			if w.Budget["edit"] > 0 {
 				pk := w.S.Objs[world.PKOKey("Package", world.NS, "p")]
 				cur, _ := world.Nested(pk.Content, "spec", "image")
-				next := "v2"
-				if cur == "v2" {
-					next = "v1"
+				order := map[string]string{"v1": "v2", "v2": "v3", "v3": "v1"}
+				for _, next := range []string{"v1", "v2", "v3"} {
+					if cur == next || (chain && order[fmt.Sprint(cur)] != next) {
+						continue
+					}
+					next := next
+					evs = append(evs, world.Event{Name: "user:set-image:" + next, Apply: func(w *world.World) *world.Pass {
+						w.Budget["edit"]--
+						_ = w.Edit(world.PKOKey("Package", world.NS, "p"), func(c map[string]any) { c["spec"].(map[string]any)["image"] = next })
+						return nil
+					}})
 				}
-				evs = append(evs, world.Event{Name: "user:set-image:" + next, Apply: func(w *world.World) *world.Pass {
-					w.Budget["edit"]--
-					_ = w.Edit(world.PKOKey("Package", world.NS, "p"), func(c map[string]any) { c["spec"].(map[string]any)["image"] = next })
-					return nil
-				}})
 			}
 			// objects become ready so that revisions get archived and pruned
 			for _, k := range w.S.SortedKeys() {
@@ -558,20 +561,23 @@ func gcSystem(edits int) *world.System {
 
 func runGC(o checks.Opts) *report.Report {
 	rep := report.New("C14", "slice-gc")
-	rep.Rule = "explicit-state BFS: Package p (EachObject chunking) updated v1{a,b} -> v2{a,c} -> v1 with the real Package, ObjectDeployment and ObjectSet controllers in any order, objects becoming ready, garbage collector; on every ObjectSlice delete the slice must be referenced neither by the deployment's template nor by any existing ObjectSet at that instant"
-	edits := 2
-	sys := gcSystem(edits)
-	sys.MaxStates = 60000
+	rep.Rule = "explicit-state BFS: Package p (EachObject chunking) updated twice among v1{a,b}, v2{a,c}, v3{a,d} (quick: v1 -> v2 -> v3; thorough: any to any) (so that a slice can be referenced only by an archived revision that still exists) with the real Package, ObjectDeployment and ObjectSet controllers in any order, objects becoming ready, garbage collector; on every ObjectSlice delete the slice must be referenced neither by the deployment's template nor by any existing ObjectSet at that instant"
+	edits, chain := 2, true
 	if !o.Quick() {
-		sys.MaxStates = 600000
+		chain = false // any image to any other image
 	}
-	osw.RunBFS(rep, sys, map[string]any{"edits": edits})
+	sys := gcSystem(edits, chain)
+	sys.MaxStates = 600000
+	osw.RunBFS(rep, sys, map[string]any{"edits": edits, "chain": chain})
+	rep.Bounds["edits"] = edits
+	rep.Bounds["any_to_any"] = !chain
 	rep.Samples = append(rep.Samples, []string{"reconcile:pkg:p", "reconcile:od:p", "user:set-image:v2", "reconcile:pkg:p", "reconcile:od:p"})
 	return rep
 }
 
 func replayGC(v report.Violation) string {
-	return osw.ReplayBFS(gcSystem(2), v)
+	chain, _ := v.Params["chain"].(bool)
+	return osw.ReplayBFS(gcSystem(2, chain), v)
 }
 
 func init() {
